@@ -248,6 +248,9 @@ func (t TokenV3) Proofs() Proofs {
 }
 
 func (t TokenV3) Mint() string {
+	if len(t.Token) == 0 {
+		return ""
+	}
 	return t.Token[0].Mint
 }
 
